@@ -12,7 +12,7 @@ sys.path.insert(0, os.path.dirname(os.path.dirname(os.path.abspath(__file__))))
 from common import VERIF, Ctx, InfraError  # noqa: E402
 from oracle import fock  # noqa: E402
 
-LEAN_TARGETS = ["QuriVerif.Props.C13", "QuriVerif.Driver.C13"]
+LEAN_TARGETS = ["QuriVerif.Props.C13", "QuriVerif.Props.C13Lift", "QuriVerif.Generated.C13JW", "QuriVerif.Driver.C13"]
 ENTRY = "DriverC13.lean"
 PROPS = "QuriVerif.Props.C13"
 GENMOD = "QuriVerif.Generated.C13Instances"
@@ -1528,6 +1528,57 @@ def _emit(name, ns, items):
     return "\n".join(lines)
 
 
+
+JW_MODES_QUICK, JW_MODES_THOROUGH = 10, 24
+
+
+def gen_jw(ctx: Ctx):
+    """Generated/C13JW.lean: what the REAL Jordan-Wigner operator mapper returns for every single ladder operator a_p / a_p^dagger
+    (p < N, register of N spin orbitals), coefficients doubled (exact Gaussian integers), labels canonical (ascending index); one
+    `decide` obligation: every row is the model's `jwLadder p dag` (Model/C13JW), on which Props/C13Lift's operator-level theorems
+    (Fock matrix elements, CAR, words) are stated.  A row that cannot be encoded (non-±1/±i doubled coefficient, an exception) is
+    emitted as a row that fails."""
+    from openfermion.ops import FermionOperator
+
+    N = JW_MODES_QUICK if ctx.quick() else JW_MODES_THOROUGH
+    with ctx.timed("translate"):
+        rows = []
+        try:
+            om = factory("jw")(N).of_operator_mapper
+        except Exception as e:  # noqa: BLE001
+            om = None
+            rows.append(f"  (0, false, [([], ⟨7, 7⟩)])  -- constructor raises {exc_name(e)}")
+        for pm in range(N if om else 0):
+            for dag in (False, True):
+                try:
+                    q = om(FermionOperator(((pm, 1 if dag else 0),)))
+                    terms = []
+                    for label, c in q.items():
+                        c2 = 2 * complex(c)
+                        re, im = c2.real, c2.imag
+                        if not (float(re).is_integer() and float(im).is_integer() and abs(re) < 100 and abs(im) < 100):
+                            re, im = 7, 7
+                        lab = ", ".join(f"({i}, .{pp.name})" for i, pp in sorted(label, key=lambda t: t[0]))
+                        terms.append(f"([{lab}], ⟨{int(re)}, {int(im)}⟩)")
+                    rows.append(f"  ({pm}, {'true' if dag else 'false'}, [{', '.join(terms)}])")
+                except Exception as e:  # noqa: BLE001
+                    rows.append(f"  ({pm}, {'true' if dag else 'false'}, [([], ⟨7, 7⟩)])  -- raises {exc_name(e)}")
+        body = "\n".join([
+            "-- GENERATED by /verif/harness/c13.py (gen_jw) from the REAL jordan_wigner operator mapper of the working tree; do not edit.",
+            "import QuriVerif.Model.C13JW",
+            "namespace QV.Gen.C13JW",
+            "open QV.C05 QV.C13JW",
+            "def rows : List (Nat × Bool × Op) := [",
+            ",\n".join(r if "--" not in r else r.replace("  --", ",  --", 1).rstrip(",") for r in rows) if False else ",\n".join(r.split("  --")[0] for r in rows),
+            "]",
+            "theorem rows_are_ladders : (rows.all fun r => jwRowOk r.1 r.2.1 r.2.2) = true := by decide",
+            f"theorem rows_complete : rows.length = {2 * N} := by decide",
+            "end QV.Gen.C13JW", ""])
+        ctx.write_generated("C13JW", body)
+        ctx.generated_entries += len(rows)
+        ctx.extra["jw_ladder_rows"] = len(rows)
+
+
 def gen(ctx: Ctx):
     """Generated/C13Instances.lean (+ C13InstancesBig.lean for the thorough tier): (kind, n, rows, signs) of the real
     mappings + one kernel-checked obligation each: for every instance the model constructor succeeds, the result of
@@ -1614,14 +1665,18 @@ def run(ctx: Ctx, replay=None) -> int:
         "sz is passed as an exact half-integer float; the model carries 2·sz ∈ ℤ",
     ]
     gen(ctx)
-    targets, obl_mods = [PROPS, "QuriVerif.Driver.C13"], [PROPS, GENMOD]
+    gen_jw(ctx)
+    LIFT, GENJW = "QuriVerif.Props.C13Lift", "QuriVerif.Generated.C13JW"
+    targets, obl_mods = [PROPS, LIFT, GENJW, "QuriVerif.Driver.C13"], [PROPS, GENMOD, LIFT, GENJW]
     if not ctx.quick():
         targets += LEAN_TARGETS_THOROUGH
         obl_mods += ["QuriVerif.Props.C13Big", "QuriVerif.Generated.C13InstancesBig"]
     ok = ctx.prove(targets, obl_mods)
     if ok:
         names = [f"QV.Props.C13.{n}" for _, n, _ in ctx.count_obligations([PROPS])] + ["QV.Gen.C13.instances_ok"]
-        imports = [PROPS]
+        names += [f"QV.Props.C13Lift.{n}" for _, n, _ in ctx.count_obligations([LIFT])]
+        names += ["QV.Gen.C13JW.rows_are_ladders", "QV.Gen.C13JW.rows_complete"]
+        imports = [PROPS, LIFT, GENJW]
         if not ctx.quick():
             names += [f"QV.Props.C13Big.{n}" for _, n, _ in ctx.count_obligations(["QuriVerif.Props.C13Big"])]
             names += ["QV.Gen.C13Big.instances_ok"]
